@@ -26,6 +26,8 @@ def main():
     out = {'id': a.id}
     try:
         meta = json.load(open(a.meta))
+        if 'author_ran' in meta:        # re-evaluation of a stored seed
+            meta = dict(meta, ran=meta.get('author_ran'))
         env = dict(os.environ, PYTHONPATH=f'{wt}/src', MPLBACKEND='Agg')
         import re
         demo_src = re.sub(r'/tmp/mutwt/C\d+', wt, open(a.demo).read())     # demos may assert the path of the author's worktree
@@ -53,8 +55,9 @@ def main():
                 out['checks'][p] = {'exit': c.returncode, 'lines': lines[:12], 'wall_s': round(time.time() - t, 1), 'stderr': c.stderr[-300:] if c.returncode == 3 else ''}
         dest = os.path.join(VERIF, 'seeded', a.id)
         os.makedirs(dest, exist_ok=True)
-        shutil.copy(a.patch, os.path.join(dest, 'patch.diff'))
-        shutil.copy(a.demo, os.path.join(dest, 'demo.py'))
+        for src, name in ((a.patch, 'patch.diff'), (a.demo, 'demo.py')):
+            if os.path.abspath(src) != os.path.abspath(os.path.join(dest, name)):
+                shutil.copy(src, os.path.join(dest, name))
         meta_out = {'property': meta.get('property'), 'summary': meta.get('summary'), 'needs': meta.get('needs'), 'files': meta.get('files'),
                     'author_ran': meta.get('ran'), 'evaluation': out,
                     'what_i_ran': [f'git worktree add {wt}', f'PYTHONPATH={wt}/src /venv/bin/python demo.py (clean: exit {out.get("demo_clean_exit")}, patched: exit {out.get("demo_patched_exit")})',
